@@ -3,8 +3,10 @@
    connection, passive sockets closed / on a 30 s timer / closed when replaced, ListDir
    closes its directory; smtp: the pump ends with the connection).
 
-   For every service scenario [s] and every connection [c] (pending segments - any bytes,
-   any segmentation - then client close / consumed datagram, or silence): *)
+   For every service scenario [s] and every connection [c]: pending segments - any bytes, any
+   segmentation - then client close / consumed datagram, or silence; and a peer that stops
+   READING after any number of bytes ([c_room c]) while keeping the connection open, so that
+   the handler's Writes wait out the write deadline of server.TimeoutConn: *)
 From HT Require Import Common.Bytes C09.Model C09.Check C09.Proofs.
 Open Scope Z_scope.
 
@@ -101,6 +103,32 @@ Theorem C09_one_deadline_ftp : forall v6 dial fuel c,
   (m_timeouts (c_m (h_conn (handle_ftp v6 dial fuel c))) <= m_timeouts (c_m c) + 1)%N.
 Proof. exact handle_ftp_one_deadline. Qed.
 
+(* the write side.  Every Write through server.TimeoutConn comes back, at the cost of at most
+   one write deadline, and only if the peer did not take the bytes *)
+Theorem C09_write_one_deadline : forall c k,
+  (m_wtimeouts (c_m (fst (cwrite_e c k))) <= m_wtimeouts (c_m c) + 1)%N /\
+  (snd (cwrite_e c k) = true -> m_wtimeouts (c_m (fst (cwrite_e c k))) = m_wtimeouts (c_m c)).
+Proof. exact cwrite_e_deadline. Qed.
+
+(* handlers that answer through a bufio.Writer (ftp control connection, smtp) wait out at most
+   ONE write deadline per writer: after the first failed Flush nothing reaches the connection *)
+Theorem C09_buffered_writer_one_deadline : forall c k,
+  (c_wdead c = true -> swrite c k = c) /\
+  (m_wtimeouts (c_m (swrite c k)) <= m_wtimeouts (c_m c) + 1)%N /\
+  (m_wtimeouts (c_m (swrite c k)) = m_wtimeouts (c_m c) + 1 -> c_wdead (swrite c k) = true)%N.
+Proof. exact swrite_once. Qed.
+
+(* ssh-simulator: the loop that decodes the payload of env / exec channel requests ends for
+   EVERY payload - every truncation point, stray tails, absurd lengths - within length+1 rounds,
+   and makes nothing up *)
+Theorem C09_ssh_payload_loop_ends : forall data, exists l, ssh_decode data = Some l.
+Proof. exact ssh_decode_total. Qed.
+
+Theorem C09_ssh_payload_sound : forall fuel data acc l,
+  ssh_strings fuel data acc = Some l ->
+  (length (concat l) + 4 * length l <= length (concat acc) + 4 * length acc + length data)%nat.
+Proof. exact ssh_strings_sound. Qed.
+
 (* ftp resources: the counters kept by the model (spawned minus released on every path) are at
    every step exactly what the data socket in hand accounts for plus the pump; so a returning
    control loop holds nothing, and the recovered panic holds exactly one unconnected passive
@@ -189,6 +217,25 @@ Example C09_datagram_witnesses_now_return :
   h_out (handle (mkScn Memcached true false DialNone) (fuel_for (mkConn [d3] TEof m0)) (mkConn [d3] TEof m0)) = Returned.
 Proof. vm_compute. repeat split; reflexivity. Qed.
 
+(* a peer that reads nothing and holds the connection open: echo gives up after one write
+   deadline; dummy (which ignores Write errors) waits one per line and then the idle deadline;
+   ftp's buffered control writer waits once, for the banner, and drops every later reply *)
+Example C09_peer_stops_reading :
+  let stalled segs := mkConn5 segs TTimeout m0 (Some 0%N) false in
+  let run s c := let h := handle s (fuel_for c) c in (h_out h, m_wtimeouts (c_m (h_conn h)), m_timeouts (c_m (h_conn h))) in
+  run (mkScn Echo false false DialNone) (stalled [[104;105]%N; [33]%N]) = (Returned, 1%N, 0%N) /\
+  run (mkScn Dummy false false DialNone) (stalled [[97;10;98;10;99;10]%N]) = (Returned, 3%N, 1%N) /\
+  run (mkScn Ftp false false DialNone) (stalled [str_USER; str_PASS; str_PASV; str_QUIT]) = (Returned, 1%N, 0%N).
+Proof. vm_compute. repeat split; reflexivity. Qed.
+
+(* ssh env payloads: two strings; cut inside the second length prefix; three stray bytes *)
+Example C09_ssh_payload_examples :
+  ssh_decode [0;0;0;1;65;0;0;0;2;66;67]%N = Some [[65]%N; [66;67]%N] /\
+  ssh_decode [0;0;0;1;65;0;0]%N = Some [[65]%N] /\
+  ssh_decode [0;0;0]%N = Some [] /\
+  ssh_decode [255;255;255;255;1]%N = Some [].
+Proof. vm_compute. repeat split; reflexivity. Qed.
+
 (* smtp, silence in the middle of a command: the partial line is taken as a command after the
    first idle deadline, the error only shows after a second one; nothing is held *)
 Example C09_smtp_two_deadlines :
@@ -226,6 +273,10 @@ Print Assumptions C09_terminates_smtp.
 Print Assumptions C09_one_deadline_copy.
 Print Assumptions C09_one_deadline_dummy.
 Print Assumptions C09_one_deadline_ftp.
+Print Assumptions C09_write_one_deadline.
+Print Assumptions C09_buffered_writer_one_deadline.
+Print Assumptions C09_ssh_payload_loop_ends.
+Print Assumptions C09_ssh_payload_sound.
 Print Assumptions C09_released_ftp.
 Print Assumptions C09_released_other_services.
 Print Assumptions C09_history_additive.
